@@ -143,6 +143,39 @@ class MTKron(Default):
         return torch.stack([torch.cos(X.sum(-1) * 1.3), torch.sin(X[..., 0] * 0.7)], -1)
 
 
+class _HadamardGP(gpytorch.models.ExactGP):
+    """module level (pickles): exact GP over (points, task indices) with covariance k(x, x') B[i, i']"""
+
+    def __init__(self, X, I, y, lik, tasks):
+        super().__init__((X, I), y, lik)
+        self.mean_module = gpytorch.means.ConstantMean()
+        self.covar_module = gpytorch.kernels.ScaleKernel(gpytorch.kernels.RBFKernel())
+        self.task_covar_module = gpytorch.kernels.IndexKernel(num_tasks=tasks, rank=1)
+
+    def forward(self, x, i):
+        return gpytorch.distributions.MultivariateNormal(self.mean_module(x), self.covar_module(x).mul(self.task_covar_module(i)))
+
+
+class Hadamard(Default):
+    """exact GP whose forward takes TWO input tensors (the Hadamard multitask construction)"""
+
+    name = "hadamard_two_inputs"
+    T = 2
+
+    def __init__(self, seed):
+        super().__init__(seed)
+        g = util.gen(seed + 707)
+        ri = lambda *shape: torch.randint(0, self.T, shape, generator=g)
+        self.X = (self.X, ri(self.n, 1))
+        self.X2 = (self.X2, ri(self.n + 1, 1))
+        self.xs = (self.xs, ri(4, 1))
+        self.xsb = (self.xsb, ri(3, 4, 1))
+        self.Xf = (self.Xf, ri(2, 1))
+
+    def build(self):
+        return _HadamardGP(self.X[0], self.X[1], self.y, gpytorch.likelihoods.GaussianLikelihood(), self.T)
+
+
 class SKI(Default):
     name = "ski"
 
@@ -262,7 +295,7 @@ class LMC(SVGP):
         self.y = torch.stack([self.y, self.y * 0.5, -self.y], -1)
 
 
-FAMILIES = {c.name: c for c in (Default, DefaultIterative, Batch, BatchNaN, MTKron, SKI, SKIDyn, SGPR, SVGP, SVGPU, SVGPMF, SVGPBD, LMC)}
+FAMILIES = {c.name: c for c in (Default, DefaultIterative, Batch, BatchNaN, MTKron, Hadamard, SKI, SKIDyn, SGPR, SVGP, SVGPU, SVGPMF, SVGPBD, LMC)}
 
 EXACT_OPS = ["pred", "pred_fpv", "pred_nodetach", "pred_skipvar", "pred_eager", "pred_batch", "train_step", "set_data", "set_targets", "set_targets_strict", "load_sd", "load_sd_same", "fantasy", "prior", "backward", "train_eval"]
 VAR_OPS = ["pred", "pred_batch", "pred_skipvar", "pred_eager", "train_step", "load_sd", "load_sd_same", "prior", "backward", "train_eval"]
@@ -272,11 +305,21 @@ def ops_for(fam):
     return EXACT_OPS if FAMILIES[fam].exact else VAR_OPS
 
 
+def call(m, xs, **kw):
+    """models whose forward takes several input tensors get them as a tuple"""
+    return m(*xs, **kw) if isinstance(xs, tuple) else m(xs, **kw)
+
+
+def train_inputs_of(m):
+    """the model's training inputs in the form set_train_data takes (a tensor, or a tuple of tensors)"""
+    return m.train_inputs[0] if len(m.train_inputs) == 1 else tuple(m.train_inputs)
+
+
 def predict(m, xs, cfg=(False, True, False, True)):
     """(fast_pred_var, detach_test_caches, skip_posterior_variances, lazily_evaluate_kernels)"""
     with S.fast_pred_var(cfg[0]), S.detach_test_caches(cfg[1]), S.skip_posterior_variances(cfg[2]), S.lazily_evaluate_kernels(cfg[3]):
         torch.manual_seed(1234)  # randomised sub-routines (Lanczos probe vectors) start from the same stream on both sides
-        o = m(xs)
+        o = call(m, xs)
         return o.mean.detach().clone(), o.covariance_matrix.detach().clone()
 
 
@@ -395,7 +438,7 @@ def apply_op(fam, m, op, state):
             predict(m, f.xs)
         Xf = f.Xf
         yf = f.yf
-        m.get_fantasy_model(Xf, yf)
+        m.get_fantasy_model(list(Xf) if isinstance(Xf, tuple) else Xf, yf)
     elif op == "var_fantasy":
         # online variational conditioning: an ExactGP over the inducing points + the new data, with injected caches; its
         # first prediction (served from the injected caches) against the one it recomputes after train()/eval()
@@ -412,12 +455,12 @@ def apply_op(fam, m, op, state):
     elif op == "prior":
         if exact:
             with S.prior_mode(True):
-                m(f.xs)
+                call(m, f.xs)
         else:
             m(f.xs, prior=True)
     elif op == "backward":
         with S.detach_test_caches(False):
-            o = m(f.xs)
+            o = call(m, f.xs)
             (o.mean.sum() + o.variance.sum()).backward()
         m.zero_grad()
     elif op == "train_eval":
@@ -431,7 +474,7 @@ def fresh_like(state, m):
     f = state["fam"]
     fr = f.build()
     if f.exact:
-        fr.set_train_data(m.train_inputs[0], m.train_targets, strict=False)
+        fr.set_train_data(train_inputs_of(m), m.train_targets, strict=False)
     fr.load_state_dict(copy.deepcopy(m.state_dict()))
     fr.eval()
     return fr
